@@ -2,6 +2,7 @@ SPECIFICATION TSpec
 CONSTANTS N <- TrN
   Start = 1
   MaxCrashes = 99
+  RepairAtStart = TRUE
   AllowMissing = TRUE
   Variant = "asis"
 INVARIANTS NeverFails VersionLast Completion
